@@ -45,14 +45,12 @@ func computeReservedNamesForScope(scope *js_ast.Scope, symbols ast.SymbolMap, na
 		}
 	}
 
-	// If there's a direct "eval" somewhere inside the current scope, continue
-	// traversing down the scope tree until we find it to get all reserved names
-	if scope.ContainsDirectEval {
-		for _, child := range scope.Children {
-			if child.ContainsDirectEval {
-				computeReservedNamesForScope(child, symbols, names)
-			}
-		}
+	// Symbols inside nested scopes can also be pinned to their original name:
+	// by a direct "eval" somewhere inside the scope, or by being referenced
+	// inside a "with" statement. Those names must be reserved too, otherwise a
+	// minified name could collide with them.
+	for _, child := range scope.Children {
+		computeReservedNamesForScope(child, symbols, names)
 	}
 }
 
